@@ -483,7 +483,27 @@ def external_cancel_sweep(thorough=False):
         yield assign_hashes(top)
 
 
+def gap_sweep(thorough=False):
+    """a non-critical raiser A and a returning job B end in the same instant,
+    0..6 event-loop iterations apart, in both orders; C and D require both, E
+    requires A only; the window is kept saturated by fillers so that whatever
+    is started has to queue.  (Any suspension inside one iteration of the
+    scheduler's main loop - e.g. asyncio.gather() on finished tasks before
+    Python 3.12 - shows here as a double start.)"""
+    gaps = range(0, 7)
+    for pa, pb in itertools.product(gaps, gaps):
+        for win in (1, 2, 3):
+            for acrit in (False,):
+                jobs = [atom('A', 1, post=pa, outcome='raise', critical=acrit),
+                        atom('B', 1, post=pb),
+                        atom('C', 1), atom('D', 0.5, coro=True), atom('E', 1),
+                        atom('F1', 2.5), atom('F2', 3), atom('F3', 1, post=(pa + pb) % 4)]
+                edges = [('C', 'A'), ('C', 'B'), ('D', 'A'), ('D', 'B'), ('E', 'A')]
+                yield assign_hashes(sched('W', jobs, edges=edges, window=win))
+
+
 SWEEPS = {
+    'gap': gap_sweep,
     'extcancel': external_cancel_sweep,
     'phase': phase_sweep,
     'phasew': phase_sweep_windowed,
